@@ -216,6 +216,7 @@ struct Obs {
     n_ios_after: usize,
     task_done: bool,
     cmd_results: Vec<bool>,
+    disabled_before_close: u32,
 }
 
 fn observe(d: &mut Driver, settled: bool, n_ios_before: usize, log: &mut Vec<String>) -> Obs {
@@ -252,6 +253,7 @@ fn observe(d: &mut Driver, settled: bool, n_ios_before: usize, log: &mut Vec<Str
         n_ios_after: d.h.ios.len(),
         task_done: d.h.task.is_done(),
         cmd_results,
+        disabled_before_close: std::mem::take(&mut d.h.conn.lock().unwrap().disabled_before_close),
     }
 }
 
@@ -336,6 +338,9 @@ fn judge_obs(o: &Obs, e: &Expected, model: &ClientModel, n_ios_before: usize, st
         if connected_after && dropped {
             p('L', "transport-closed", "the connection was closed although the model says it stays open".into());
         }
+    }
+    if o.disabled_before_close > 0 {
+        p('L', "disabled-announced-before-close", "the listener was told Disabled while the connection was still open".into());
     }
     // task end
     if o.task_done != model.done() {
